@@ -807,6 +807,57 @@ def cache_fill_provenance(rep):
               "vars = [av]", node=sv[0])
 
 
+def independent_lists(rep, functions=("read_ET_data",)):
+    """A dictionary of per-key lists that are filled in place (`d[k] += [...]`,
+    `d[k].remove(...)`) must hold one list *per key*: built with a fresh display per key, not
+    with dict.fromkeys(keys, []) or a repeated reference, which make every key share one list
+    (what is recorded as missing for one component is then missing for all)."""
+    n = 0
+    for q in functions:
+        fn = fnode(rep, q)
+        # dictionaries whose values are mutated in place
+        mutated = set()
+        for x in ast.walk(fn):
+            t = None
+            if isinstance(x, ast.AugAssign) and isinstance(x.target, ast.Subscript) \
+                    and isinstance(x.target.value, ast.Name):
+                t = x.target.value.id
+            elif isinstance(x, ast.Call) and isinstance(x.func, ast.Attribute) \
+                    and x.func.attr in ("append", "extend", "remove", "insert", "pop", "sort") \
+                    and isinstance(x.func.value, ast.Subscript) \
+                    and isinstance(x.func.value.value, ast.Name):
+                t = x.func.value.value.id
+            if t:
+                mutated.add(t)
+        for a in ast.walk(fn):
+            if not (isinstance(a, ast.Assign) and isinstance(a.targets[0], ast.Name)
+                    and a.targets[0].id in mutated):
+                continue
+            v = a.value
+            key = f"{RD}::{q}::{a.targets[0].id}"
+            shared = None
+            if isinstance(v, ast.Call) and unparse(v.func) in ("dict.fromkeys",) \
+                    and len(v.args) == 2:
+                d = v.args[1]
+                if isinstance(d, (ast.List, ast.Dict, ast.Set, ast.Name)) or (
+                        isinstance(d, ast.Call) and unparse(d.func) in ("list", "dict", "set")):
+                    shared = f"dict.fromkeys(..., {unparse(d)}) gives every key the same object"
+            elif isinstance(v, ast.DictComp) and isinstance(v.value, ast.Name) \
+                    and v.value.id not in {x.id for g in v.generators
+                                           for x in ast.walk(g.target)
+                                           if isinstance(x, ast.Name)}:
+                shared = f"every key is given the same object `{v.value.id}`"
+            elif not isinstance(v, (ast.DictComp, ast.Dict)):
+                continue
+            n += 1
+            rep.check(shared is None, "independent-lists", key,
+                      f"`{norm_src(a)[:70]}`: {shared}; the entries of `{a.targets[0].id}` are "
+                      "filled in place further down, so they must be separate lists",
+                      node=a)
+    if n == 0:
+        raise AnalysisError("independent-lists: no per-key list dictionary found")
+
+
 def iteration_labels(rep):
     """Every ET reader normalises the requested iterations itself (its rows come out in the
     order of its own `it`), and read_ET_variables labels the merged result with *its* `it`:
